@@ -31,7 +31,8 @@ reg("C06", level="model_checking", overlay="world",
     technique="stateless depth-first exploration of operation histories (deviation-bounded) on the real handler, step-relation oracle against the store's pre-state",
     level_text="Every history inside the stated bounds is executed on the real handleRequest/updateTXTimestamp (through verif hooks) and every transition is judged against the statement using the store's own pre-state; states/transitions are counted, traces are implementation runs.",
     budget={"quick": 600, "thorough": 1500}, workers={"quick": 16, "thorough": 16},
-    variants=[{"name": "main"}, {"name": "listener", "args": ["-vmode", "listener"]}],
+    variants=[{"name": "main"}, {"name": "listener", "args": ["-vmode", "listener"]},
+              {"name": "cap3", "overlay": "world", "overlay_extra": "tsscap=3", "args": ["-vmode", "cap3"]}],
     assumptions=["timestamps stay inside one NTP era", "alphabets are relative (collide / +1ns / +1s / -1s / other client's value), not all of int64",
                  "the kernel transmit timestamp is an input of updateTXTimestamp in the handler-level layer; the listener-level layer runs runIPServer with an emulated error queue"])
 
